@@ -8,7 +8,7 @@
      - preservation of the meaning of units that reference other non-standard units: the claim is FALSE for the code
        (C06_units_meaning_refuted) and no sufficient condition beyond first-level units was proved. *)
 From Coq Require Import List String QArith Bool Arith.
-From LC Require Import Common NumDefs UnitsDefs FlattenDefs FlattenProofs FlattenOwn FlattenShape FlattenTerm FlattenUnits FlattenTermPos.
+From LC Require Import Common NumDefs UnitsDefs FlattenDefs FlattenProofs FlattenOwn FlattenShape FlattenTerm FlattenUnits FlattenTermPos FlattenTermPos2.
 Import ListNotations.
 Local Open Scope string_scope.
 Local Open Scope nat_scope.
@@ -432,8 +432,39 @@ Example C06_capture_is_not_ranked : forall rl,
 Proof. exact FlattenTermPos.capture_is_not_ranked. Qed.
 Print Assumptions C06_capture_is_not_ranked.
 
+(* Two more fuelled recursions under the same decidable hypothesis and the same bound (FlattenTermPos2.v): Model::hasImports, the
+   condition of 'while (flatModel->hasImports())' (hasUnitsImports walks the references of the flat model's units), and
+   utilities.cpp referencedUnits (what unitsUsed runs for every units a component uses).  Both only read one units list; no guard
+   is needed when the list is ranked. *)
+Theorem C06_has_imports_terminates : forall rl fx libs fs, ranked_b (f_units fs) rl = true ->
+  has_imports fx libs (transfer_fuel_bound rl) fs <> FFuel.
+Proof. exact FlattenTermPos2.has_imports_terminates. Qed.
+Print Assumptions C06_has_imports_terminates.
+
+Theorem C06_referenced_units_terminates : forall rl U u, ranked_b U rl = true ->
+  referenced_units (transfer_fuel_bound rl) U u <> FFuel.
+Proof. exact FlattenTermPos2.referenced_units_terminates. Qed.
+Print Assumptions C06_referenced_units_terminates.
+
+(* not vacuous: mm, mm2 = mm^2 (hand case same_name_different_units), mm3 = mm2 * far, with / without the imported units far *)
+Example C06_has_imports_terminates_nonvacuous :
+  ranked_b (f_units (tp2_fs true)) tp2_ranks = true /\ ranked_b (f_units (tp2_fs false)) tp2_ranks = true /\
+  transfer_fuel_bound tp2_ranks = 4 /\
+  has_imports flat_current_fixes [] (transfer_fuel_bound tp2_ranks) (tp2_fs true) = FOk true /\
+  has_imports flat_current_fixes [] (transfer_fuel_bound tp2_ranks) (tp2_fs false) = FOk false /\
+  referenced_units (transfer_fuel_bound tp2_ranks) (f_units (tp2_fs true)) tp2_mm3 = FOk ["mm"; "mm2"; "far"] /\
+  referenced_units 2 (f_units (tp2_fs true)) tp2_mm3 = FFuel.
+Proof. exact FlattenTermPos2.has_imports_terminates_nonvacuous. Qed.
+Print Assumptions C06_has_imports_terminates_nonvacuous.
+
+(* the hypothesis is needed: on the captured list q = [q] both recursions run out of every fuel *)
+Example C06_unranked_diverges : forall fuel,
+  has_units_imports_go fuel [tp2_q] tp2_q = FFuel /\ referenced_units fuel [tp2_q] tp2_q = FFuel.
+Proof. exact FlattenTermPos2.unranked_diverges. Qed.
+Print Assumptions C06_unranked_diverges.
+
 (* NOT PROVED: the same for the other fuelled loops (retrieve / flatten_units_imports, required_loop, flatten_component_imports,
-   the two top loops, the while-hasImports rounds), and the step from an INPUT-level predicate (no units name denoting different
+   the two top loops, the NUMBER of while-hasImports rounds -- only its condition is covered), and the step from an INPUT-level predicate (no units name denoting different
    units in two files of the closure, no N_<digits> next to N: checks/c06.py case_facts) to "every source list handed to transfer
    is ranked": that needs the invariant that the required-units loop only writes names into the clone that are not names of the
    clone, which was not established.
